@@ -11,8 +11,35 @@ fn cfg(bound: u32) -> ExploreCfg {
     ExploreCfg { bound, workers: 1, split_depth: 0, max_executions: None, time_cap: None, max_failures: 1000, stop_flag: None }
 }
 
+/// shuttle prints a line to stderr for every deadlock it detects; the self-test provokes some on purpose.
+struct QuietStderr(i32);
+impl QuietStderr {
+    fn new() -> Self {
+        unsafe {
+            let saved = libc::dup(2);
+            let null = libc::open(b"/dev/null\0".as_ptr() as *const libc::c_char, libc::O_WRONLY);
+            if null >= 0 {
+                libc::dup2(null, 2);
+                libc::close(null);
+            }
+            QuietStderr(saved)
+        }
+    }
+}
+impl Drop for QuietStderr {
+    fn drop(&mut self) {
+        unsafe {
+            if self.0 >= 0 {
+                libc::dup2(self.0, 2);
+                libc::close(self.0);
+            }
+        }
+    }
+}
+
 /// Returns a list of failed expectations (empty = fine).
 pub fn run() -> Vec<String> {
+    let _quiet = QuietStderr::new();
     let mut bad = Vec::new();
 
     // 1. all interleavings of two threads with k atomic steps each are produced: C(2k, k) distinct orders
